@@ -188,6 +188,7 @@ func (o *Obligation) query(axioms []*Term) *Query {
 		skolemKeep = nil
 		ng := Not(goal)
 		q.Asserts = append(q.Asserts, ng)
+		q.NBase = len(q.Asserts)
 		var cands []*Term
 		cands = append(cands, sks...)
 		cands = append(cands, hsks...)
@@ -309,6 +310,7 @@ func solveFlat(obls []*Obligation, cfg solveCfg) {
 		o      *Obligation
 		file   string
 		qfFile string
+		skFile string
 	}
 	var jobs []job
 	// rendering is sequential (term store is not concurrent)
@@ -345,6 +347,21 @@ func solveFlat(obls []*Obligation, cfg solveCfg) {
 				}
 				q2.Asserts = append(q2.Asserts, d)
 			}
+			// quantifier-free skeleton: no instances at all (decides frame-like goals in long functions fast)
+			if any && q.NBase > 0 && q.NBase < len(q.Asserts) || (any && hasAnyQuant(q.Asserts)) {
+				q0 := &Query{Axioms: q.Axioms}
+				n := q.NBase
+				if n == 0 || n > len(q.Asserts) {
+					n = len(q.Asserts)
+				}
+				for _, a := range q.Asserts[:n] {
+					d, _ := dropQuant(a)
+					q0.Asserts = append(q0.Asserts, d)
+				}
+				txt0, _ := q0.Render(false)
+				j.skFile = filepath.Join(cfg.dir, fmt.Sprintf("o%05d.skel.smt2", i))
+				os.WriteFile(j.skFile, []byte(header+"; quantifier-free skeleton\n"+txt0), 0o644)
+			}
 			dropKeep = nil
 			if any {
 				txt2, _ := q2.Render(false)
@@ -364,8 +381,21 @@ func solveFlat(obls []*Obligation, cfg solveCfg) {
 				o := j.o
 				var r solveOut
 				done := false
-				if j.qfFile != "" {
-					r = solveQuery(j.qfFile, cfg.fastS, cfg.fullS, false)
+				if j.skFile != "" {
+					r = solveQuery(j.skFile, cfg.fastS, 5, false)
+					if r.status == "unsat" {
+						r.solver += "+skeleton"
+						done = true
+					}
+				}
+				if !done && j.qfFile != "" {
+					t0 := r.secs
+					il := cfg.fullS / 3
+					if il < 20 {
+						il = 20
+					}
+					r = solveQuery(j.qfFile, cfg.fastS, il, false)
+					r.secs += t0
 					if r.status == "unsat" {
 						r.solver += "+inst"
 						done = true
@@ -620,4 +650,13 @@ func splitGoal(t *Term, d int) []*Term {
 		return out
 	}
 	return []*Term{t}
+}
+
+func hasAnyQuant(ts []*Term) bool {
+	for _, t := range ts {
+		if hasQuant(t) {
+			return true
+		}
+	}
+	return false
 }
